@@ -217,7 +217,11 @@ func runC08(w *World) {
 	if faultDesc != "none" {
 		stream = append(stream, MkRawHeader(marker, length, typ, body)...)
 	}
-	if !positive {
+	// the remote sometimes ends the stream right behind its last byte (everything it
+	// sent still has to be read and judged), and the faulty header may then be the
+	// very last thing in the stream
+	finBehind := !positive && w.Chance(1, 4, "fin-behind")
+	if !positive && !(finBehind && w.Chance(1, 2, "no-trailer")) {
 		stream = append(stream, MkFrame(MsgUpdate, trailer)...)
 	}
 	if len(stream) == 0 {
@@ -225,9 +229,7 @@ func runC08(w *World) {
 		return
 	}
 	c.SendSeg(stream)
-	if !positive && w.Chance(1, 4, "fin-behind") {
-		// the remote ends the stream right behind its last byte: everything it sent
-		// still has to be read and judged
+	if finBehind {
 		c.FIN()
 		w.Probe("fin-right-behind-the-stream")
 	}
